@@ -13,7 +13,7 @@ for d in sorted(glob.glob(os.path.join(os.path.dirname(os.path.abspath(__file__)
         l=l.strip()
         if l and not l.startswith('#') and len(l)>30:
             desc=re.sub(r'[|`*]','',l)[:170]; break
-    if m.get('history','').startswith('MISSED'):
+    if m.get('history','').startswith(('MISSED','The first run')):
         first='missed, then caught after strengthening'
     elif m.get('check_quick_verdict')=='CAUGHT':
         first='caught'
